@@ -20,7 +20,8 @@ RULE = ('case = setup (tables People/Projects or the self pair People<->People; 
         'bundles of 1-3 ops: Update/BulkUpdate on either side (several rows aiming at one target, lists with '
         'repeated ids, clearing with None/0/[]), Add/BulkAdd with values for a linked column, Remove/BulkRemove '
         'on either side, ModifyColumn Ref<->RefList on either side, unlink (reverseCol=0 by ModifyColumn or '
-        'metadata record, RemoveColumn), re-link, RemoveTable, column rename, undo of the last successful '
+        'metadata record, RemoveColumn), re-link, RemoveTable, column/table rename, one action writing both '
+        'columns of a self pair, undo of the last successful '
         'bundles. Non-trivial = at least one successful bundle changed >= 1 cell of a column that is linked '
         '(before or after the bundle); distinct by hash of the concrete user actions.')
 ORACLE = ('after each successful bundle, for every pair of columns c (table A) and r (table B) whose metadata '
@@ -40,7 +41,7 @@ ASSUMPTIONS = ['reference values written by the generator name existing rows of 
                'after a rejected bundle, differences confined to formula (display helper) cells that a following '
                'Calculate repairs are the known C04 finding (formula cells stay dirty after rollback) and are not '
                'charged here']
-BUDGET = {'quick': dict(examples=1400, shards=16, max_seconds=55),
+BUDGET = {'quick': dict(examples=2000, shards=16, max_seconds=55),
           'thorough': dict(examples=22000, shards=16, max_seconds=560)}
 SHRINK_BUDGET = {'quick': 120, 'thorough': 500}
 
@@ -254,9 +255,16 @@ def resolve(d, op, st_):
       vs = [ref_value(c['kind'], pool, vals[0])] * len(rows)
     else:
       vs = [ref_value(c['kind'], pool, vals[i % len(vals)]) for i in range(len(rows))]
+    colvals = {c['col']: vs}
+    if op.get('both'):
+      # self pair: one action writing both sides
+      rv = [x for x in cols if x['ref'] == c['reverse'] and x['table'] == c['table']]
+      if rv:
+        pool2 = d.row_ids(rv[0]['target'])
+        colvals[rv[0]['col']] = [ref_value(rv[0]['kind'], pool2, vals[(i + 1) % len(vals)]) for i in range(len(rows))]
     if len(rows) == 1 and not op.get('bulk'):
-      return ['UpdateRecord', c['table'], rows[0], {c['col']: vs[0]}]
-    return ['BulkUpdateRecord', c['table'], rows, {c['col']: vs}]
+      return ['UpdateRecord', c['table'], rows[0], {k_: v_[0] for k_, v_ in colvals.items()}]
+    return ['BulkUpdateRecord', c['table'], rows, colvals]
   if k == 'add':
     c = _pick(_order(cols), op.get('c', 0))
     if not c:
@@ -326,6 +334,11 @@ def resolve(d, op, st_):
     if not c: return None
     new = ['Owner', 'Members', 'Ties'][int(op.get('name', 0)) % 3]
     return ['RenameColumn', c['table'], c['col'], new]
+  if k == 'rentable':
+    t = _pick(tables, op.get('t', 0))
+    if not t: return None
+    new = {'People': 'Persons', 'Persons': 'People', 'Projects': 'Tasks', 'Tasks': 'Projects'}.get(t, t + 'X')
+    return ['RenameTable', t, new]
   if k == 'undo':
     if not st_['undo']:
       return None
@@ -399,6 +412,16 @@ def is_meta_link(uas):
              and 'reverseCol' in u[3] and u[3]['reverseCol'] not in (0, None, [0]) for u in uas)
 
 
+def writes_both_sides(uas, pairs):
+  """Some record action of the bundle carries values for both columns of a linked pair (self pair)."""
+  for u in uas:
+    if u[0] in RECORD_EDITS and len(u) > 3 and isinstance(u[3], dict):
+      for c, r in pairs:
+        if c['table'] == r['table'] == u[1] and c['col'] in u[3] and r['col'] in u[3]:
+          return True
+  return False
+
+
 def bundle_class(uas):
   """Coarse kind of the mechanism a bundle exercises (for signatures)."""
   kinds = set(u[0] for u in uas)
@@ -409,6 +432,8 @@ def bundle_class(uas):
     return 'link-change'
   if 'ModifyColumn' in kinds or any('type' in u[3] for u in meta if len(u) > 3 and isinstance(u[3], dict)):
     return 'type-switch'
+  if 'RenameTable' in kinds or 'RenameColumn' in kinds:
+    return 'rename'
   if kinds & set(['RemoveRecord', 'BulkRemoveRecord']):
     return 'row-removal'
   if kinds & set(['AddRecord', 'BulkAddRecord']):
@@ -507,6 +532,8 @@ def step(d, out, st_, uas):
       key = (c['ref'], r_['ref'])
       if pre_asym.get(key):
         sig = 'C11:asymmetric:reverseCol-set-on-unreconciled-columns'
+      elif writes_both_sides(uas, pairs_before):
+        sig = 'C11:asymmetric:one-action-writes-both-sides'
       else:
         sig = 'C11:asymmetric:after-' + bundle_class(uas)
       out.fail(sig,
@@ -573,7 +600,7 @@ _vspec = st.tuples(st.integers(0, 11), _sel, _sel, _sel).map(list)
 def _op():
   upd = st.fixed_dictionaries({'k': st.just('upd'), 'c': st.integers(0, 3), 'rows': st.lists(_sel, min_size=1, max_size=3),
                                'vals': st.lists(_vspec, min_size=1, max_size=3), 'same': st.booleans(),
-                               'bulk': st.booleans()})
+                               'bulk': st.booleans(), 'both': st.sampled_from([False, False, False, True])})
   add = st.fixed_dictionaries({'k': st.just('add'), 'c': st.integers(0, 3), 'n': st.integers(0, 2),
                                'vals': st.lists(_vspec, min_size=1, max_size=3), 'same': st.booleans(),
                                'bulk': st.booleans(), 'novalue': st.sampled_from([False, False, False, True])})
@@ -587,8 +614,9 @@ def _op():
   rmtable = st.fixed_dictionaries({'k': st.just('rmtable'), 't': st.integers(0, 1)})
   rename = st.fixed_dictionaries({'k': st.just('rename'), 'c': st.integers(0, 3), 'name': st.integers(0, 2)})
   undo = st.fixed_dictionaries({'k': st.just('undo')})
+  rentable = st.fixed_dictionaries({'k': st.just('rentable'), 't': st.integers(0, 1)})
   table = {'upd': upd, 'add': add, 'rm': rm, 'modtype': modtype, 'unlink': unlink, 'link': link, 'addcol': addcol,
-           'undo': undo, 'rmtable': rmtable, 'rename': rename}
+           'undo': undo, 'rmtable': rmtable, 'rename': rename, 'rentable': rentable}
   kinds = []
   for k in sorted(WEIGHTS):
     kinds.extend([k] * WEIGHTS[k])
@@ -596,7 +624,7 @@ def _op():
 
 
 WEIGHTS = {'upd': 30, 'add': 8, 'rm': 8, 'modtype': 8, 'unlink': 3, 'link': 5, 'addcol': 2, 'undo': 8,
-           'rmtable': 1, 'rename': 1}
+           'rmtable': 1, 'rename': 1, 'rentable': 1}
 
 
 def strategy(tier):
